@@ -945,6 +945,39 @@ theorem retrievable_Enumeration (pr : Profile) (hdev : pr.debugAsserts = true) (
   | err x => rw [hs] at h2; cases h2
   | panic => rw [hs] at h2; cases h2
 
+/-! ## every declared immediate owns its value-store cell -/
+
+/-- `ValueStoreBuilder::store` as the parser uses it: the value store is a list of independent
+cells, one per declared immediate in document order.  Every store opens a NEW cell — its id
+differs from every id handed out before, whatever the values (equal values included) — and the
+earlier cell keeps its value. -/
+theorem immediates_own_cells (v w : Value F) (st st' : St F) (h : Grows (storeS v st).2 st') :
+    (storeS v st).1 < (storeS w st').1 ∧
+      (storeS w st').2.values[(storeS v st).1]? = some v ∧
+      (storeS w st').2.values[(storeS w st').1]? = some w :=
+  storeS_fresh_cell v w st st' h
+
+/-- Two `String` nodes declaring immediate `<Value>`s — equal texts included — anywhere in a
+document (any declarations in between that only grow the builder state): they hold different
+value ids, and both cells hold the declared texts. -/
+theorem string_immediates_do_not_alias (m1 m2 : StringM) (s1 s2 : Str)
+    (h1 : m1.value = .imm s1) (h2 : m2.value = .imm s2) (st st' : St F)
+    (h : Grows (specString m1 st).2 st') :
+    ∃ i1 i2, (specString m1 st).1.value = .imm i1 ∧ (specString m2 st').1.value = .imm i2 ∧
+      i1 < i2 ∧ (specString m2 st').2.values[i1]? = some (.str s1) ∧
+      (specString m2 st').2.values[i2]? = some (.str s2) := by
+  have hg : Grows (storeS (Value.str s1) (specElem m1.elem [] (specAttr m1.attr st).2).2).2
+      (specElem m2.elem [] (specAttr m2.attr st').2).2 := by
+    have : (specString m1 st).2 =
+        (storeS (Value.str s1) (specElem m1.elem [] (specAttr m1.attr st).2).2).2 := by
+      simp [specString, h1]
+    rw [← this]
+    exact h.trans (grows_specElem _ _ (grows_specAttr _ (Grows.refl st')))
+  obtain ⟨f1, f2, f3⟩ := storeS_fresh_cell (Value.str s1) (Value.str s2) _ _ hg
+  refine ⟨_, _, by simp [specString, h1], by simp [specString, h2], f1, ?_, ?_⟩
+  · simpa [specString, h2] using f2
+  · simpa [specString, h2] using f3
+
 /-! ## literals -/
 
 /-- whatever `convert_to_int` accepts is taken as an immediate by the `ImmOrPNode` sniffing -/
